@@ -1,6 +1,6 @@
 \* pattern A: every abstract site of <= 4 entries in 2 disassemblies (entry types c/b, with and without entry
-\* points and mid-block comments, one cross reference from an entry or a page), both path layouts, decimal and
-\* hex anchors, single-page on/off: the documented file set and link rule imply the C16 invariants.
+\* points and mid-block comments, one #R or operand reference from an entry or a page), both path layouts, decimal and hex anchors,
+\* single-page on/off: the documented file set and link rule imply the C16 invariants.
 SPECIFICATION Spec
 CONSTANTS
   MaxEntries = 4
